@@ -219,6 +219,12 @@ func (db *DB) loadSchema(of Object) (s *Schema, err error) {
 			return
 		}
 
+		// a schema file holding the JSON value null
+		if s == nil {
+			err = fmt.Errorf("%w: empty schema", ErrBadSchema)
+			return
+		}
+
 		// we initialize schema from object
 		if err = s.initialize(db, of); err != nil {
 			return
